@@ -28,6 +28,7 @@ import (
 	"seehuhn.de/go/postscript"
 
 	"verif/mc"
+	"verif/model/eexecref"
 	"verif/model/pscmp"
 )
 
@@ -114,6 +115,8 @@ var handShaped = []string{
 	// loops announced for many rounds and left early: what counts is what is executed
 	"0 1000 { 1 add dup 3 eq { exit } if } repeat", "50 { pop } repeat", "1000000 { exit } repeat 5", "100000 { stop } repeat",
 	"0 1 1000000 { 2 eq { exit } if } for 6", "0 1 1000000 { pop pop } for", "65536 array { pop exit } forall 7", "4096 string { 1 (a) add } forall",
+	// every round of a loop is an operation and meets the operand stack limit, also when the body is empty
+	"600 array {} forall", "100 array {} forall 7", "3 { 200 array {} forall } repeat", "[ 1 2 3 ] {} forall [ 4 5 ] {} forall", "65536 string {} forall", "300 array { } forall 300 array { } forall",
 	// operators whose work depends on a size: each still counts as one operation
 	"65536 string pop 1 2 add pop", "65536 array pop 1 2 add pop", "65536 dict pop 1 2 add pop",
 	"1024 string 1023 get pop 1", "4096 array 0 4096 getinterval length", "2000 array dup 0 1000 array putinterval length 1 add",
@@ -529,6 +532,13 @@ func growthCases() []growth {
 		{"1 1 {1 index} loop", []string{"stackoverflow"}},
 		{"0 1 1000000 {} for", []string{"stackoverflow"}},
 		{"1000000 {1} repeat", []string{"stackoverflow"}},
+		// a loop with an empty body pushes its operands all the same
+		{"600 array {} forall", []string{"stackoverflow"}},
+		{"3 { 200 array {} forall } repeat", []string{"stackoverflow"}},
+		{"65536 string {} forall", []string{"stackoverflow"}},
+		{"0 1 1000 { } for", []string{"stackoverflow"}},
+		{"300 array { } forall 300 array { } forall", []string{"stackoverflow"}},
+		{"/a 499 array def a {} forall a {} forall", []string{"stackoverflow"}},
 		{"{1 dict begin} loop", []string{"dictstackoverflow"}},
 		{"{userdict begin} loop", []string{"dictstackoverflow"}},
 		{"{currentdict begin} loop", []string{"dictstackoverflow"}},
@@ -766,6 +776,67 @@ func startBody(c *mc.Ctx, item int) mc.Verdict {
 	return v
 }
 
+// ---------------------------------------------------------------------------
+// execution nesting is counted across an eexec section
+
+// eexecDepthBody: a non-tail recursion counts its rounds in an array and is
+// cut off by execstackoverflow.  Started k procedure levels deep it gets
+// 100-k levels less a constant; started from inside an eexec section that was
+// itself entered k levels deep it must get the same number less a constant
+// that does not depend on k (the section is run by a nested scanner, which
+// must not give the recursion a fresh allowance).
+var eexecDepths = []int{0, 1, 2, 5, 10, 30, 50, 80, 90}
+
+func eexecDepthRun(k int, through bool) (int, error) {
+	const pre = "/d 1 array def d 0 0 put /f { d 0 d 0 get 1 add put f 0 pop } def "
+	inner := "f"
+	var tail []byte
+	if through {
+		inner = "currentfile eexec"
+		ci := eexecref.New()
+		cipher := ci.Encrypt(nil, []byte("\x00\x00\x00\x00f mark currentfile closefile\n"))
+		tail = append([]byte("\n"), eexecref.Armour(cipher, eexecref.HexLower)...)
+		tail = append(tail, "\ncleartomark"...)
+	}
+	// (everything is inside the procedure g, so that the cipher text follows the token that runs eexec)
+	prog := pre + "/g { " + strings.Repeat("{ ", k) + inner + strings.Repeat(" 0 pop } exec", k) + " 0 pop } def g"
+	intp := postscript.NewInterpreter()
+	err := intp.Execute(strings.NewReader(prog + string(tail)))
+	arr, ok := intp.UserDict["d"].(postscript.Array)
+	if !ok || len(arr) != 1 {
+		return -1, fmt.Errorf("counter lost (%v)", err)
+	}
+	n, _ := arr[0].(postscript.Integer)
+	return int(n), err
+}
+
+func eexecDepthBody(c *mc.Ctx, item int) mc.Verdict {
+	k := eexecDepths[item]
+	a0, _ := eexecDepthRun(0, false)
+	b0, _ := eexecDepthRun(0, true)
+	a, errA := eexecDepthRun(k, false)
+	b, errB := eexecDepthRun(k, true)
+	c.Steps(4)
+	what := fmt.Sprintf("recursion started %d procedure levels deep: %d rounds directly (%v), %d rounds from inside an eexec section (%v); at level 0: %d and %d", k, a, errA, b, errB, a0, b0)
+	for _, e := range []error{errA, errB} {
+		if e == nil || !strings.Contains(e.Error(), "execstackoverflow") {
+			v := mc.Fail("C11:eexec-depth:not-cut-off", what)
+			v.Render = what
+			return v
+		}
+	}
+	if a != a0-k || b-a != b0-a0 || a <= 0 || b <= 0 {
+		v := mc.Fail("C11:eexec-depth:fresh-allowance-inside-the-section", what+": the nesting limit must be the same total depth in both cases")
+		v.Render = what
+		return v
+	}
+	v := mc.Pass("same-total-depth", true)
+	if c.Render() {
+		v.Render = what
+	}
+	return v
+}
+
 func main() {
 	mc.Main(mc.Program{
 		Property: "C11",
@@ -838,6 +909,10 @@ func main() {
 						return "C11:crash:growth:" + p
 					},
 					HangSeconds: 60,
+				},
+				{
+					Name: "nesting-limit-across-an-eexec-section", Items: len(eexecDepths), Body: eexecDepthBody, Budget: budget,
+					Rule: fmt.Sprintf("a counting non-tail recursion started k in %v procedure levels deep, once directly and once from inside a (hex) eexec section entered at that depth: both are cut off by execstackoverflow, the direct one after (rounds at level 0) - k rounds, the one inside the section after the same total depth (constant offset to the direct one for every k); non-trivial = all", eexecDepths),
 				},
 				{
 					Name: "start-check", Items: 65536 + 1 + 256 + len(startPrefixes), Body: startBody, Budget: budget,
